@@ -22,7 +22,7 @@ func init() {
 		Explanation: "the precedence and associativity table of the recursive-descent parser reached from bf.Parse is the documented one: following the left-operand callees from Parse gives the levels ';' (And), '=' (Eq), '->' (Implies), '|' (Or), '&' (And), each taking its left operand from the next tighter level and its right operand from itself, then '^' (Not, operand: itself), then the atom, whose '(' re-enters at the loosest level and requires ')', whose '{' builds Unique and which otherwise builds Var; " +
 			"bf.Parse returns a formula without error only on the path where the end of input was reached; every parser function returns a nil formula whenever it returns a non-nil error.",
 		NotDecided: "tokenisation by text/scanner, the behaviour on every corrupted text, equivalence of the parsed formula with the text for every input; nothing is executed.",
-		Rules:      []ruleFn{ruleR17_1, ruleR17_2, ruleR17_3, ruleR17_4},
+		Rules:      []ruleFn{ruleR17_1, ruleR17_2, ruleR17_3, ruleR17_4, ruleR17_5, ruleR17_6},
 	})
 }
 
@@ -1270,5 +1270,154 @@ func ruleR17_3(w *World, r *Report) {
 		} else {
 			r.OK(id, key, w.Pos(rc.fn.Pos()), fmt.Sprintf("%d return(s) with a nil error, %d with a nil formula, %d handing on both results of a parser function", rc.nNilE, rc.nNilF, rc.nPair))
 		}
+	}
+}
+
+// ---------------------------------------------------------------------------------------------------------------
+// R17.5 / R17.6 (after the fourth round of external mutants)
+// ---------------------------------------------------------------------------------------------------------------
+
+// R17.5: the tokenisation is the default one of text/scanner.
+func ruleR17_5(w *World, r *Report) {
+	const id = "R17.5"
+	r.Rule(id, "package bf leaves the token classes of its text/scanner.Scanner at their defaults: no store into Mode, Whitespace or IsIdentRune (an identifier that may contain `-` swallows the arrow of `a->b`; white space would start to matter)", 1)
+	m, _ := bfOf(w)
+	key := "bf scanner configuration"
+	if m.err != "" {
+		r.Unk(id, key, "-", m.err)
+		return
+	}
+	var bad []string
+	scanners := 0
+	for _, fn := range m.fns {
+		allInstrs(fn, func(ins ssa.Instruction) {
+			switch x := ins.(type) {
+			case *ssa.Alloc:
+				if typeShort(x.Type()) == "*text/scanner.Scanner" || strings.HasSuffix(x.Type().String(), "text/scanner.Scanner") {
+					scanners++
+				}
+			case *ssa.Store:
+				fa, ok := x.Addr.(*ssa.FieldAddr)
+				if !ok {
+					return
+				}
+				pt, ok := fa.X.Type().Underlying().(*types.Pointer)
+				if !ok || !strings.HasSuffix(pt.Elem().String(), "text/scanner.Scanner") {
+					return
+				}
+				st, ok := pt.Elem().Underlying().(*types.Struct)
+				if !ok {
+					return
+				}
+				switch name := st.Field(fa.Field).Name(); name {
+				case "Mode", "Whitespace", "IsIdentRune":
+					bad = append(bad, fmt.Sprintf("%s is set at %s", name, w.InstrPos(x)))
+				}
+			}
+		})
+	}
+	if len(bad) > 0 {
+		r.Bad(id, key, w.Pos(m.fns[0].Pos()), strings.Join(bad, "; ")+": the token classes are no longer those the documented syntax is written for (operators directly after a name, white space between tokens)")
+	} else {
+		r.OK(id, key, "-", "no store into Mode / Whitespace / IsIdentRune of a text/scanner.Scanner in package bf")
+	}
+}
+
+// R17.6: a variable is built only from a token that is neither an operator nor a closing parenthesis.
+func ruleR17_6(w *World, r *Report) {
+	const id = "R17.6"
+	r.Rule(id, "the parser builds a variable (Var) from the current token only where that token is known to be neither an operator (the package's operator predicate answered false) nor `)`: otherwise a missing operand or an unbalanced `)` becomes a variable instead of an error", 1)
+	pm := newParserModel(w)
+	if pm.err != "" {
+		r.Unk(id, "variable sites", "-", pm.err)
+		return
+	}
+	isParser := map[*ssa.Function]bool{}
+	for _, f := range pm.fns {
+		isParser[f] = true
+	}
+	tokenLoad := func(fn *ssa.Function, v ssa.Value) bool {
+		ld, ok := v.(*ssa.UnOp)
+		if !ok || ld.Op != token.MUL {
+			return false
+		}
+		fa, ok := ld.X.(*ssa.FieldAddr)
+		return ok && len(fn.Params) > 0 && fa.X == ssa.Value(fn.Params[0]) && basicInfo(ld.Type())&types.IsString != 0
+	}
+	// what is excluded on entry to block b of fn: the operator predicate, the token ")"
+	var excluded func(fn *ssa.Function, b *ssa.BasicBlock, depth int) (op, paren bool)
+	excluded = func(fn *ssa.Function, b *ssa.BasicBlock, depth int) (op, paren bool) {
+		n := &pnode{fn: fn}
+		for _, ec := range dominatingConds(b) {
+			c, pol := ec.Cond, ec.True
+			for {
+				if u, ok := c.(*ssa.UnOp); ok && u.Op == token.NOT {
+					c, pol = u.X, !pol
+					continue
+				}
+				break
+			}
+			if call, ok := c.(*ssa.Call); ok && !pol && len(call.Call.Args) == 1 && tokenLoad(fn, call.Call.Args[0]) {
+				if sc := call.Call.StaticCallee(); sc != nil && pm.m.inPkg[w.unwrap(sc)] {
+					op = true
+				}
+			}
+			if tok, eq, ok := tokenTest(n, c); ok && tok == ")" && eq != pol {
+				paren = true
+			}
+		}
+		if (op && paren) || depth >= 2 {
+			return
+		}
+		// the tests may be made by the callers (a sub-parser for identifiers)
+		sites, allOp, allParen := 0, true, true
+		for _, g := range pm.fns {
+			for _, ci := range callsIn(g) {
+				if sc := ci.Common().StaticCallee(); sc == nil || w.unwrap(sc) != fn || g == fn {
+					continue
+				}
+				sites++
+				o2, p2 := excluded(g, ci.Block(), depth+1)
+				allOp, allParen = allOp && o2, allParen && p2
+			}
+		}
+		if sites > 0 {
+			op, paren = op || allOp, paren || allParen
+		}
+		return
+	}
+	n := 0
+	for _, fn := range pm.fns {
+		for _, ci := range callsIn(fn) {
+			c, ok := ci.(*ssa.Call)
+			if !ok {
+				continue
+			}
+			sc := c.Call.StaticCallee()
+			if sc == nil || !pm.m.inPkg[w.unwrap(sc)] || sc.Name() != "Var" || sc.Signature.Recv() != nil {
+				continue
+			}
+			if len(c.Call.Args) != 1 || !tokenLoad(fn, c.Call.Args[0]) {
+				continue
+			}
+			n++
+			key := fmt.Sprintf("%s variable site #%d", w.FuncName(fn), n)
+			op, paren := excluded(fn, c.Block(), 0)
+			var bad []string
+			if !op {
+				bad = append(bad, "an operator token can reach the construction of a variable (the operator predicate is not known false there): `a & ` followed by an operator is read as a variable named after the operator")
+			}
+			if !paren {
+				bad = append(bad, "the token `)` can reach the construction of a variable: an unbalanced or misplaced `)` is read as a variable named `)` and the text is accepted")
+			}
+			if len(bad) > 0 {
+				r.Bad(id, key, w.InstrPos(c), strings.Join(bad, "; "))
+			} else {
+				r.OK(id, key, w.InstrPos(c), "behind `not an operator` and `not )`")
+			}
+		}
+	}
+	if n == 0 {
+		r.Unk(id, "variable sites", "-", "no parser function builds Var from the current token")
 	}
 }
